@@ -11,7 +11,7 @@ def run_proofs(ctx):
     from vf.proofs import c01, c15
 
     reg, cs = c15.build()
-    ctx.assume("A-lib(re): Pattern.match is an uninterpreted predicate; exc_for_token returns a FormulaSyntaxError",
+    ctx.assume("A-lib(re): Pattern.match is an uninterpreted predicate; exc_for_token returns a FormulaSyntaxError (never raises: vf/proofs/c14_errors.py)",
                "A-exc: MemoryError / RecursionError / KeyboardInterrupt are out of scope")
     run_contracts(ctx, cs, reg, workloads=c15.workloads(), concrete_env=c15.CONCRETE_ENV)
     reg2, cs2 = c01.build()
@@ -22,3 +22,6 @@ def run_proofs(ctx):
     from vf.proofs import c14_ast
 
     c14_ast.run_proofs(ctx)
+    from vf.proofs import c14_errors
+
+    c14_errors.run_proofs(ctx)      # exc_for_token / exc_for_missing_operator (assumed in c14_ast and in the tokenizer proof) never raise
